@@ -258,6 +258,8 @@ Apply(S, c, cmd) ==
                     ELSE SOk([S EXCEPT !.conn[c].queue = Append(@, cmd)], RSimple("QUEUED"))
     IN  [res EXCEPT !.S = Flag(S, res.S, nm)]
 
+LiveDbs0(S) == [d \in DbIds |-> Live(S.dbs[d], S.now)]
+
 \* time passes: deadlines may be crossed; watchers of keys that expire are flagged
 Tick(S, dt) == [Flag(S, [S EXCEPT !.now = @ + dt], "tick") EXCEPT !.oid = S.oid, !.nid = S.nid]
 
